@@ -388,7 +388,9 @@ func (usi *UnrotatedSegmentInfo) doRangeCheckForCols(timeFilteredBlocks map[uint
 		for col := range colsToCheck {
 			cmi, ok := currInfo[col]
 			if !ok || cmi == nil || cmi.Ranges == nil {
-				if rangeOp == sutils.NotEquals {
+				// a text column (it has a bloom) may hold numbers as text, they are
+				// compared by value and there is no range for them
+				if rangeOp == sutils.NotEquals || (ok && cmi != nil && cmi.Bf != nil) {
 					timeFilteredBlocks[blkNum][col] = true
 					matchedBlockRange = true
 				}
